@@ -163,6 +163,19 @@ func TxnPoint() {
 	}
 }
 
+// TxnHook, if set, is called before every engine transaction of the instrumented storage/badger (kind = Update, View,
+// Flush or Commit), whether or not the scheduler is active. C04 uses it to kill a worker between the engine transactions of
+// one store operation.
+var TxnHook func(kind string)
+
+// TxnPointKind is what vinstr inserts: the hook, then the scheduling point.
+func TxnPointKind(kind string) {
+	if TxnHook != nil {
+		TxnHook(kind)
+	}
+	TxnPoint()
+}
+
 // Go starts f in a new goroutine; if the caller is controlled, the new goroutine is controlled as well.
 func Go(f func()) {
 	parent := self()
